@@ -51,6 +51,25 @@ NOTES = """Interpretation choices (read generously, see BUILDING.md rule 1):
   declaration present / absent / behind a byte order mark - for workbook.xml, presentation.xml, their relationship
   parts, /_rels/.rels, container.xml and the package documents. Relationship parts carry no foreign attributes (OPC
   forbids Markup Compatibility there).
+* ENTRY POINTS (audit). Views of the parts in order, all driven:
+    tabula.Extractor: PageCount, Text, ToMarkdown, ToMarkdownWithOptions, Document, Chunks, ChunksWithConfig,
+      ExcludeHeadersAndFooters().Text, Pages(k).Text, PageRange(a,b).Document.
+    xlsx.Reader: SheetNames, SheetCount, Sheet(i), SheetByName, Text, Markdown, Document, Tables.
+    pptx.Reader: SlideCount, PageCount, Slide(i).GetText / GetMarkdown, Text, TextWithOptions (SlideNumbers, IncludeNotes,
+      IncludeTitles, ExcludeHeaders, ExcludeFooters), Markdown, MarkdownWithOptions, MarkdownWithRAGOptions, Document.
+    epubdoc: Open and OpenReader (from bytes), ChapterCount, Chapters() (Content, Href, Index), Text, TextWithOptions,
+      Markdown, MarkdownWithOptions, Document, TableOfContents (its entries, by href, list the declared parts of the
+      default rendition's navigation document in declared order).
+  Pages / PageRange: the statement says nothing about selections (C10): a selection must show the selected parts
+  ascending or - where the format does not take selections, as on the current tree - all parts in order.
+  NOT observable for these formats: the PDF-only Extractor operations (Fragments ... Elements, IsCharacterLevel,
+  IsMultiColumn return an error), Metadata (no parts), tabula.FromReader / FromHTML* (other formats).
+* conformance class: XLSX / PPTX packages are generated in the Transitional and in the ISO/IEC 29500 Strict class
+  (purl.oclc.org namespaces for the main document, DrawingML and r:, purl.oclc.org relationship Types, conformance=
+  "strict" on the root), consistently per package; the other relationships (styles, theme, sharedStrings, slideMaster,
+  props) precede, follow or are interleaved with the worksheet / slide relationships. A chartsheet / dialogsheet listed
+  in <sheets> is NOT generated (it needs drawing and chart parts to be valid, and the statement speaks of worksheets).
+  EPUB: OPF 2.0 (NCX, guide) and 3.0 (nav) were already a dimension.
 * references may contain "./" (and for EPUB "../") segments: resolved as RFC 3986 5.2.4 says, relative and absolute.
 * OPC relationship targets are tried relative to the source part ('worksheets/sheet1.xml') and absolute
   ('/xl/worksheets/sheet1.xml'); '..' segments are generated only for EPUB. Speaker notes, slide masters and
@@ -60,7 +79,7 @@ NOTES = """Interpretation choices (read generously, see BUILDING.md rule 1):
 EVIDENCE = dict(
     level="model_checking",
     rule="cases = every package PartsOrderMC.tla builds from K parts (K=3 quick, 4 thorough) x three independent permutations "
-         "(declared order, relationship/manifest listing order, archive order; file-name order = part number) x 81 layout profiles "
+         "(declared order, relationship/manifest listing order, archive order; file-name order = part number) x 85 layout profiles "
          "(XLSX, PPTX, EPUB 2/3; nested / renamed / ../ paths; absolute targets; %20, '+', %2B; decoys; optional parts; one declared part "
          "absent from the archive, with other parts or decoys under the conventional sheet<k>/slide<k> names; member names with space, '+', "
          "'%20', lone '%', e-acute, parentheses, '&' in their encoded / raw spellings with decoys named like the doubly decoded, undecoded "
@@ -82,9 +101,9 @@ def _selftest(ctx, cases):
         try:
             d, ab = info["declared"], tuple(info.get("absent") or ())
             if info["fmt"] == "xlsx":
-                audit.audit_xlsx(info["path"], info["members"], declared=[(x[2], x[0]) for x in d], absent=ab)
+                audit.audit_xlsx(info["path"], info["members"], declared=[(x[2], x[0]) for x in d], absent=ab, strict=info.get("strict", False))
             elif info["fmt"] == "pptx":
-                audit.audit_pptx(info["path"], info["members"], declared=[(x[0], x[1]) for x in d], absent=ab)
+                audit.audit_pptx(info["path"], info["members"], declared=[(x[0], x[1]) for x in d], absent=ab, strict=info.get("strict", False))
             else:
                 audit.audit_epub(info["path"], info["members"], declared=[(x[0], x[1]) for x in d], absent=ab, nroots=info.get("nroots"))
             # the parts appear in the archive in exactly the order the case asked for
@@ -144,7 +163,7 @@ def _name_features(results):
                 tot[key] = tot.get(key, 0) + 1
                 if not r["ok"]:
                     bad[key] = bad.get(key, 0) + 1
-    prio = {"paths": 0, "tgt": 1, "opf": 2, "enc": 3, "foreign-id-last": 4, "foreign-id-first": 5, "rev": 6, "prefix": 6, "quotes": 7, "oc": 8, "gaps": 9, "decl": 10}
+    prio = {"paths": 0, "tgt": 1, "opf": 2, "enc": 3, "foreign-id-last": 4, "foreign-id-first": 5, "rev": 6, "conf": 6, "chain": 6, "prefix": 6, "quotes": 7, "oc": 8, "gaps": 9, "decl": 10}
     for r in results:
         sig = r.get("sig") or ""
         feats = _features(sig)
@@ -234,7 +253,8 @@ def run(ctx):
     miss = [c for c in cases if c["prof"]["missing"] > 0]
     chains = [c for c in cases if c["prof"]["chain"] != "one"]
     spelled = [c for c in cases if c["prof"]["xml"]["rev"] or c["prof"]["xml"]["foreign"] or c["prof"]["xml"]["decl"] != "std"]
-    chains = [spelled[i * len(spelled) // 7] for i in range(7)] + chains
+    strictc = [c for c in cases if c["prof"].get("conf") == "strict"]
+    chains = [strictc[i * len(strictc) // 5] for i in range(5)] + [spelled[i * len(spelled) // 7] for i in range(7)] + chains
     picks = [chains[0], chains[len(chains) // 3], chains[2 * len(chains) // 3], chains[-1], miss[0], miss[len(miss) // 2], miss[-1], cases[0], cases[ng // 5], cases[2 * ng // 5], cases[3 * ng // 5], cases[4 * ng // 5], cases[ng - 1], cases[-1], cases[-2], cases[-3]]
     _selftest(ctx, picks)
     for c in (cases[ng // 3], cases[-1]):
